@@ -122,8 +122,34 @@ def canon_results(results, defs, base):
     return out
 
 
+def apply_patches(recipe):
+    """ optional small thresholds so that flush / batch boundaries are
+    crossed by small files: {"NUM_BUFFERED_RESULTS": n, "TRANSIT_MAX": m} """
+    import searchkit.task as T
+    saved = (T.NUM_BUFFERED_RESULTS, T.QueueTransitBuffer.MAX)
+    pt = recipe.get('patch') or {}
+    if 'NUM_BUFFERED_RESULTS' in pt:
+        T.NUM_BUFFERED_RESULTS = pt['NUM_BUFFERED_RESULTS']
+    if 'TRANSIT_MAX' in pt:
+        T.QueueTransitBuffer.MAX = pt['TRANSIT_MAX']
+    return saved
+
+
+def restore_patches(saved):
+    import searchkit.task as T
+    T.NUM_BUFFERED_RESULTS, T.QueueTransitBuffer.MAX = saved
+
+
 def execute(recipe):
     _setup()
+    saved = apply_patches(recipe)
+    try:
+        return _execute(recipe)
+    finally:
+        restore_patches(saved)
+
+
+def _execute(recipe):
     from searchkit import FileSearcher
     base = recipe['dir']
     cons, defs = make_objects(recipe)
